@@ -94,7 +94,7 @@ def parse_event(typ: str, text: str) -> t.Dict[str, t.Any]:
 
 
 # ---- generator ----------------------------------------------------------------------------------------------------
-def _cfg(path: str, typ: str, weight: int, spacing: int, quoted: bool = True, nstr: int = 19) -> None:
+def _cfg(path: str, typ: str, weight: int, spacing: int, quoted: bool = True, nstr: int = 21) -> None:
     with open(path, "w") as f:
         f.write(f'CONSTANTS\n  Type = "{typ}"\n  NStr = {nstr}\n  NOid = 10\n  MaxList = 3\n  MaxExt = 3\n  MaxExtVals = 3\n  Spacing = {spacing}\n  MaxWeight = {weight}\n'
                 f"  Quoted = {'TRUE' if quoted and typ == 'at' else 'FALSE'}\n  MaxChoices = 400\nSPECIFICATION Spec\nCHECK_DEADLOCK FALSE\nINVARIANT ParseOfUnparse\n")
